@@ -315,6 +315,13 @@ inline Mat make_data(const Case& c)
         fprintf(stderr, "unknown data kind %s\n", kind.c_str());
         exit(2);
     }
+    // optional exact repetition: consecutive groups of `dupcopies` samples become bit-identical copies of the group's first
+    if (c.has("dupcopies"))
+    {
+        int r = std::max(1, (int)c.i("dupcopies", 1));
+        for (int j = 0; j < N; ++j)
+            X.col(j) = Mat(X.col(j - j % r));
+    }
     // optional overall unit change (the data measured in a much smaller / larger unit)
     if (c.has("xscale"))
         X *= c.d("xscale", 1.0);
